@@ -30,7 +30,7 @@ func (s *Server) filterDNSRequest(dctx *dnsContext) (res *filtering.Result, err 
 	q := req.Question[0]
 	host := strings.TrimSuffix(q.Name, ".")
 
-	resVal, err := s.dnsFilter.CheckHost(host, q.Qtype, dctx.setts)
+	resVal, err := s.checkHost(host, q.Qtype, dctx.setts)
 	if err != nil {
 		return nil, fmt.Errorf("checking host %q: %w", host, err)
 	}
@@ -55,6 +55,21 @@ func (s *Server) filterDNSRequest(dctx *dnsContext) (res *filtering.Result, err 
 	}
 
 	return res, err
+}
+
+// checkHost checks the host against all filters.  It holds s.serverLock only
+// for the duration of the check itself: the response generation that follows
+// may take it again (see [Server.genBlockedHost]), and a recursive read lock
+// deadlocks as soon as a writer is waiting.
+func (s *Server) checkHost(
+	host string,
+	qtype uint16,
+	setts *filtering.Settings,
+) (res filtering.Result, err error) {
+	s.serverLock.RLock()
+	defer s.serverLock.RUnlock()
+
+	return s.dnsFilter.CheckHost(host, qtype, setts)
 }
 
 // isRewrittenCNAME returns true if the request considered to be rewritten with
